@@ -34,7 +34,7 @@ REAL = ['glue.core.data.Data mutation API', 'glue.core.component_id', 'glue.core
 STUB = ['recording HubListener', 'uuid and identity-hash streams']
 ASSUMPTIONS = ['messages are compared only when no delay window is open', 'sampling, not proof']
 PROBES = ['rejected_add_wrong_shape', 'rejected_reorder', 'rejected_update_wrong_shape', 'partial_update_then_reject', 'cascade_remove', 'coords_replaced',
-          'coords_removed', 'update_from_new_shape', 'update_from_label_mismatch', 'ops_in_delay_window', 'outside_collection', 'rename', 'update_id', 'joined_collection_later', 'identifier_of_rejected_add_reused', 'flipflop_reorder', 'flipflop_remove_add', 'flipflop_update_id', 'update_id_of_coordinate']
+          'coords_removed', 'update_from_new_shape', 'update_from_label_mismatch', 'ops_in_delay_window', 'outside_collection', 'rename', 'update_id', 'joined_collection_later', 'identifier_of_rejected_add_reused', 'flipflop_reorder', 'flipflop_remove_add', 'flipflop_update_id', 'update_id_of_coordinate', 'rename_of_coordinate']
 
 WEIGHTS = {'add': 5, 'add_bad': 1.5, 'add_derived': 3, 'remove': 3, 'reorder': 2, 'reorder_bad': 1, 'rename': 2, 'update_id': 1.5, 'upd': 3, 'upd_bad': 1,
            'upd_partial': 1, 'upd_from': 2, 'coords': 2, 'label': 1, 'delay_open': 1, 'delay_close': 1.5, 'new': 0.7, 'append': 1, 'flipflop': 1.2}
@@ -71,7 +71,7 @@ def generate(rng, cfg, guards):
         elif k == 'reorder_bad':
             ops.append([k, r8(), rng.pick(['short', 'foreign', 'dup'])])
         elif k == 'rename':
-            ops.append([k, r8(), r8()])
+            ops.append([k, r8(), r8(), rng.chance(0.25)])
         elif k in ('upd', 'upd_bad', 'upd_partial'):
             ops.append([k, r8(), r8(), rng.randrange(10000)])
         elif k == 'upd_from':
@@ -312,6 +312,9 @@ def execute(case, res):
                 if d is None:
                     continue
                 cs = own(d)
+                if len(op) > 3 and op[3]:
+                    cs = list(d.pixel_component_ids) + list(d.world_component_ids)      # axes can be given other names too
+                    res.probe('rename_of_coordinate')
                 nname[0] += 1
                 c = cs[op[2] % len(cs)]
                 if op[2] == -1 and last_added[0] is not None and any(last_added[0] is x for x in cs):
